@@ -6,7 +6,7 @@
 Not decided: rounding mode, text round trip, the values produced by each cast kernel."""
 import re
 from .framework import RuleResult
-from .mir import Fn, switch_edges
+from .mir import Fn, switch_edges, op_const
 
 EXPLANATION = ("Decides (a) on MIR: every site that drops an inner cast is edge-dominated by the Safe edge of the dropped cast's own "
                "flatten flag; (b) on the const registry tables: `CastFlatten::Safe` appears only on lossless type pairs and PrimToPrim "
@@ -400,9 +400,81 @@ def rule_precchk(facts):
     return r
 
 
+def _group(fid):
+    """impl group of a function id: strip the method (and closures) so that bind, cast and their closures fall together"""
+    base = fid.split("::{closure")[0]
+    return base.rsplit("::", 1)[0]
+
+
+def rule_scalesign(facts):
+    """A decimal scale is signed: a positive scale multiplies by 10^scale, a negative one divides. Code that takes the magnitude
+    (`scale.unsigned_abs()`) to build the power of ten must therefore also look at the sign somewhere in the same impl (bind, cast or
+    their closures); otherwise the negative case is treated like the positive one (12::double::decimal(5,-1) was 1200)."""
+    r = RuleResult("C13-SCALESIGN", "an impl that takes the magnitude of a decimal scale also tests its sign", floor=4)
+    CAST = "glaredb_core::functions::cast::"
+    groups = {}
+    for rec in facts.all_fns(["glaredb_core"], contains="functions::cast::"):
+        if CAST not in rec["id"] or "::tests::" in rec["id"]:
+            continue
+        g = groups.setdefault(_group(rec["id"]), {"abs": [], "sign": False})
+        fn = Fn(rec)
+        for c in fn.calls():
+            if c.name.endswith("impl i8>::unsigned_abs") or c.name.endswith("impl i8>::abs"):
+                g["abs"].append((rec, c.line))
+            if c.name.endswith("impl i8>::is_negative") or c.name.endswith("impl i8>::is_positive") or c.name.endswith("impl i8>::signum"):
+                g["sign"] = True
+        for b, i, pl, rv, ln in fn.assigns():
+            if rv[0] == "bin" and rv[1] in ("Lt", "Le", "Gt", "Ge") and str(rv[4]) == "i8":
+                ks = [op_const(x) for x in (rv[2], rv[3])]
+                if any(k and k.get("k") == "int" and k.get("v") == 0 for k in ks):
+                    g["sign"] = True
+    for gid, g in sorted(groups.items()):
+        for rec, line in g["abs"]:
+            r.functions.add(rec["id"])
+            r.call_sites += 1
+            r.inst({"impl": gid, "fn": rec["id"], "sign_tested_in_impl": g["sign"]}, g["sign"])
+            if not g["sign"]:
+                r.violate(rec["id"], "scale-magnitude-without-sign", "the power of ten is built from |scale| but nothing in this impl tests the sign of the scale: "
+                          "a negative scale is applied like a positive one", rec["file"], line)
+    return r
+
+
+def rule_decfloat(facts):
+    """decimal -> float: the unscaled integer and 10^scale do not fit the narrow float types (10^5 is infinity as a Float16, so
+    0.5::decimal(10,6)::half was inf/inf = NaN). The kernel has to convert the unscaled integer to Float64, divide there, and narrow
+    the quotient."""
+    r = RuleResult("C13-DECFLOAT", "the decimal-to-float kernel converts the unscaled integer to Float64 before it narrows to the target float type", floor=1)
+    recs = facts.fns_matching(lambda i: "to_primitive::DecimalToFloat<" in i and "CastFunction>::cast::{closure" in i)
+    if not recs:
+        r.missing_anchor("DecimalToFloat::cast closure")
+        return r
+    n = 0
+    for rec in recs:
+        fn = Fn(rec)
+        for c in fn.calls():
+            if not c.name.endswith("NumCast>::from") and not c.name.endswith("NumCast::from"):
+                continue
+            o = fn.origin(c.args[0], at=c.bb) if c.args and c.args[0][0] in ("c", "m") else None
+            if not o or o[0] != "arg":
+                continue        # not the unscaled input value
+            n += 1
+            tgt = (c.callee.get("args") or ["?"])[0]
+            ok = tgt == "f64"
+            r.functions.add(rec["id"])
+            r.call_sites += 1
+            r.inst({"fn": rec["id"], "first_conversion_target": tgt}, ok)
+            if not ok:
+                r.violate(rec["id"], "unscaled-to-narrow-float", f"the unscaled decimal integer is converted to {tgt} (the target float type) before the division by 10^scale: "
+                          "for Float16 both operands overflow to infinity and the result is NaN", rec["file"], c.line)
+    if n == 0:
+        r.missing_anchor("DecimalToFloat: no NumCast::from on the kernel's input value")
+    return r
+
+
+
 def run(ctx):
     facts = ctx["facts"]
-    return [rule_flat(facts), rule_tab(facts), rule_narrow(facts), rule_qsign(facts), rule_rtwords(facts), rule_precchk(facts)]
+    return [rule_flat(facts), rule_tab(facts), rule_narrow(facts), rule_qsign(facts), rule_rtwords(facts), rule_precchk(facts), rule_scalesign(facts), rule_decfloat(facts)]
 
 
 CLAIM = {
